@@ -36,12 +36,12 @@ def concrete_values(crate_dir, hid, harness_timeout, log, stubbing=False):
 
 
 def write_replay_crate(dirpath, module, mod_text, harness_path, vals, repo="/repo", extra_lib="",
-                       extra_files=None):
+                       extra_files=None, deps=None):
     if os.path.isdir(dirpath):
         shutil.rmtree(dirpath)
     os.makedirs(os.path.join(dirpath, "src"))
     with open(os.path.join(dirpath, "Cargo.toml"), "w") as f:
-        f.write(CARGO_TOML % {"name": "vt_replay", "repo": repo,
+        f.write(CARGO_TOML % {"name": "vt_replay", "deps": deps or ('enum-tools = { path = "%s" }' % repo),
                               "bin": '\n[[bin]]\nname = "replay"\npath = "src/replay.rs"\n'})
     lock = os.path.join(repo, "Cargo.lock")
     if os.path.exists(lock):
